@@ -1,6 +1,7 @@
 package rules
 
 import (
+	"go/constant"
 	"go/token"
 
 	"golang.org/x/tools/go/ssa"
@@ -102,6 +103,52 @@ func isLenOfField(field string, isBase func(ssa.Value) bool) func(ssa.Value) boo
 		base, f, okf := fieldLoad(cl.Common().Args[0])
 		return okf && f == field && (isBase == nil || isBase(base))
 	}
+}
+
+func constInt64Val(v constant.Value) (int64, bool) { return constant.Int64Val(v) }
+
+// evalConstInt folds an integer expression over constants (+, -, *).
+func evalConstInt(v ssa.Value) (int64, bool) {
+	v = ir.Strip(v)
+	if k, ok := ir.ConstInt(v); ok {
+		return k, true
+	}
+	b, ok := v.(*ssa.BinOp)
+	if !ok {
+		return 0, false
+	}
+	x, ok1 := evalConstInt(b.X)
+	y, ok2 := evalConstInt(b.Y)
+	if !ok1 || !ok2 {
+		return 0, false
+	}
+	switch b.Op {
+	case token.ADD:
+		return x + y, true
+	case token.SUB:
+		return x - y, true
+	case token.MUL:
+		return x * y, true
+	}
+	return 0, false
+}
+
+// fieldStoresOn: stores to <base>.field in fn, base compared after stripping.
+func fieldStoresOn(fn *ssa.Function, base ssa.Value, field string) []*ssa.Store {
+	var out []*ssa.Store
+	for _, b := range fn.Blocks {
+		for _, in := range b.Instrs {
+			st, ok := in.(*ssa.Store)
+			if !ok {
+				continue
+			}
+			fa, ok := st.Addr.(*ssa.FieldAddr)
+			if ok && fieldNameOf(fa) == field && ir.Strip(fa.X) == base {
+				out = append(out, st)
+			}
+		}
+	}
+	return out
 }
 
 // isFieldOf: (converted) load of <base>.field.
